@@ -36,18 +36,23 @@ def random_script(rng, fx, names, sid, length, threads=None, nkeys=None, registr
     events = sorted({t for n in names for t in fx[n]["events"]} | {"zz"})
     deps = sorted({t for n in names for t in fx[n]["deps"]} | {"zz"})
     cnames = sorted({fx[n]["cache_name"] for n in names} | {"nobody"})
+    # a request of one kind is also made with the labels of the other kinds (a tag name used as an event ...)
+    anylabel = sorted(set(tags) | set(events) | set(deps) | set(cnames))
+
+    def label(own):
+        return rng.choice(own) if rng.random() < 0.6 else rng.choice(anylabel)
     for _ in range(length):
         r = rng.random()
         if registry and r < 0.18:
             kind = rng.choice(["inv_tag", "inv_event", "inv_dep", "inv_name", "inv_with", "inv_all_with"])
             if kind == "inv_tag":
-                ops.append({"op": kind, "x": rng.choice(tags)})
+                ops.append({"op": kind, "x": label(tags)})
             elif kind == "inv_event":
-                ops.append({"op": kind, "x": rng.choice(events)})
+                ops.append({"op": kind, "x": label(events)})
             elif kind == "inv_dep":
-                ops.append({"op": kind, "x": rng.choice(deps + cnames)})
+                ops.append({"op": kind, "x": label(deps + cnames)})
             elif kind == "inv_name":
-                ops.append({"op": kind, "x": rng.choice(cnames)})
+                ops.append({"op": kind, "x": label(cnames)})
             elif kind == "inv_with":
                 sel = [str(k) for k in range(1, nkeys + 1) if rng.random() < 0.4]
                 ops.append({"op": kind, "x": rng.choice(cnames), "sel": sel})
